@@ -7,7 +7,8 @@ package c19
 // documents as equivalent (native syntax, JSON syntax, shuffled / commented /
 // re-spaced / hclwrite.Format-ed text, k files merged with hcl.MergeFiles,
 // runs of blocks folded into `dynamic` blocks expanded by dynblock.Expand, and
-// compositions).  Every form is decoded with hcldec.Decode and gohcl.DecodeBody.
+// compositions).  Every form is decoded with hcldec.Decode and gohcl.DecodeBody, and
+// through the two-stage consumer styles of styles_test.go.
 
 import (
 	"fmt"
@@ -74,6 +75,11 @@ type CaseA struct {
 	Forms  []FormA      `json:"forms"`             // Forms[0] is the reference: plain native text
 	Stats  []string     `json:"stats,omitempty"`   // generator classes hit (for the label histogram)
 	Layers *LayeredA    `json:"layers,omitempty"`
+	// decoder dimension (styles_test.go): where the two-stage consumers cut every
+	// body in two, and how many block levels down the hcldec spec is cut
+	Plan    *cfggen.SplitP `json:"plan,omitempty"`
+	PDDepth int            `json:"pd_depth,omitempty"`
+	GoLater bool           `json:"go_later,omitempty"` // gohcl remain field: hcl.Body decoded by a second call (else struct-typed)
 }
 
 // fileCounts: number of files a configuration is split into (2-9).
@@ -169,6 +175,10 @@ func genA(t *rapid.T) CaseA {
 
 	nforms := rapid.IntRange(1, 5).Draw(t, "nforms")
 	ds := &cfggen.DynState{Stats: stats}
+	plan := cfggen.GenSplit(t, &c.Schema)
+	c.Plan = &plan
+	c.PDDepth = rapid.IntRange(0, 2).Draw(t, "pd-depth")
+	c.GoLater = rapid.Bool().Draw(t, "go-later")
 	for fi := 0; fi < nforms; fi++ {
 		var f FormA
 		steps := map[string]bool{}
@@ -179,6 +189,9 @@ func genA(t *rapid.T) CaseA {
 			if body.HasDyn() {
 				steps["dynamic"] = true
 				f.Expand = true
+				if cfggen.RemainderRefs(&c.Schema, c.Plan, body) > 0 {
+					stats["partial-decode-inside-generated-block-with-iterator-reference-in-remainder"]++
+				}
 			}
 		} else {
 			body = cfggen.PlainBody(&c.Schema, &c.Inst)
@@ -260,6 +273,7 @@ type outcome struct {
 	goErr    bool
 	goDiag   string
 	twice    string // non-empty: a second decode of the same body disagreed with the first
+	styles   []styleRes
 }
 
 func evalCtx(c *CaseA) *hcl.EvalContext {
@@ -346,7 +360,7 @@ func failedParse(msg string) outcome {
 	return outcome{parseErr: true, decErr: true, goErr: true, decDiag: msg, goDiag: msg}
 }
 
-func decodeBody(body hcl.Body, ctx *hcl.EvalContext, spec hcldec.Spec, st reflect.Type) outcome {
+func decodeBody(body hcl.Body, ctx *hcl.EvalContext, spec hcldec.Spec, st reflect.Type, env *styleEnv, expand bool) outcome {
 	var o outcome
 	val, diags := hcldec.Decode(body, spec, ctx)
 	o.decVal, o.decErr = val, diags.HasErrors()
@@ -359,6 +373,7 @@ func decodeBody(body hcl.Body, ctx *hcl.EvalContext, spec hcldec.Spec, st reflec
 	if o.goErr {
 		o.goDiag = gd.Error()
 	}
+	o.styles = decodeStyles(env, body, ctx, expand)
 	return o
 }
 
@@ -378,10 +393,10 @@ func sameOutcome(a, b outcome) (string, string) {
 			return "gohcl|value-differs", "structs differ at " + where
 		}
 	}
-	return "", ""
+	return sameStyles(a.styles, b.styles)
 }
 
-func decodeForm(c *CaseA, f *FormA, spec hcldec.Spec, st reflect.Type) outcome {
+func decodeForm(c *CaseA, f *FormA, spec hcldec.Spec, st reflect.Type, env *styleEnv) outcome {
 	ctx := evalCtx(c)
 	files, perr := parseFiles(f.Files)
 	if perr != "" {
@@ -396,10 +411,10 @@ func decodeForm(c *CaseA, f *FormA, spec hcldec.Spec, st reflect.Type) outcome {
 	if f.Expand {
 		body = dynblock.Expand(body, ctx)
 	}
-	o := decodeBody(body, ctx, spec, st)
+	o := decodeBody(body, ctx, spec, st, env, f.Expand)
 	if f.Twice {
 		// the same body decoded again gives the same result
-		o2 := decodeBody(body, ctx, spec, st)
+		o2 := decodeBody(body, ctx, spec, st, env, f.Expand)
 		if sig, msg := sameOutcome(o, o2); sig != "" {
 			o.twice = sig + ": " + msg
 		}
@@ -408,7 +423,7 @@ func decodeForm(c *CaseA, f *FormA, spec hcldec.Spec, st reflect.Type) outcome {
 }
 
 // checkLayers: every base+overlay decodes like its own single-file text.
-func checkLayers(c *CaseA, spec hcldec.Spec, st reflect.Type) *core.Violation {
+func checkLayers(c *CaseA, spec hcldec.Spec, st reflect.Type, env *styleEnv) *core.Violation {
 	l := c.Layers
 	ctx := evalCtx(c)
 	baseFiles, perr := parseFiles(l.Base)
@@ -431,7 +446,7 @@ func checkLayers(c *CaseA, spec hcldec.Spec, st reflect.Type) *core.Violation {
 			runs = 2
 		}
 		for r := 0; r < runs; r++ {
-			o := decodeBody(g.body, ctx, spec, st)
+			o := decodeBody(g.body, ctx, spec, st, nil, false)
 			if sig, msg := sameOutcome(g.ref, o); sig != "" {
 				return core.V(fmt.Sprintf("%s|layered|%s", sig, order),
 					"configuration base+overlay%d (base of %d files, shape %s, %d overlays, %s, decode #%d) differs from its single-file text: %s\n--- single file\n%s\n--- overlay\n%s",
@@ -447,7 +462,7 @@ func checkLayers(c *CaseA, spec hcldec.Spec, st reflect.Type) *core.Violation {
 		if perr != "" || rerr != "" {
 			continue
 		}
-		g := cfg{body: hcl.MergeBodies([]hcl.Body{base, of[0].Body}), ref: decodeBody(rf[0].Body, ctx, spec, st), i: i}
+		g := cfg{body: hcl.MergeBodies([]hcl.Body{base, of[0].Body}), ref: decodeBody(rf[0].Body, ctx, spec, st, nil, false), i: i}
 		if !l.DecodeAfterAll {
 			if v := verdict(g, order); v != nil {
 				return v
@@ -507,7 +522,8 @@ func checkA(c CaseA) *core.Violation {
 	if len(c.Forms) == 0 {
 		return nil
 	}
-	ref := decodeForm(&c, &c.Forms[0], spec, st)
+	env := newStyleEnv(&c)
+	ref := decodeForm(&c, &c.Forms[0], spec, st, env)
 
 	if c.Fault == "" {
 		// anchor: the reference rendering of a conforming instance decodes, without
@@ -527,9 +543,22 @@ func checkA(c CaseA) *core.Violation {
 		}
 	}
 
+	if sname, msg := crossStyle(&ref); sname != "" {
+		return core.V(fmt.Sprintf("style|%s|differs-from-complete-decode|native", sname),
+			"reference form: %s\nplan %s (hcldec spec cut %d levels down)\n%s", clipS(msg, 2500), planText(c.Plan), c.PDDepth, c.Forms[0].Files[0].Src)
+	}
+	if c.Fault == "" {
+		// a conforming instance is accepted by every consumer style
+		for _, s := range ref.styles {
+			if s.err {
+				return core.V("style|"+s.name+"|conforming-instance-rejected|native", "reference form rejected: %s\nplan %s\n%s", clipS(s.diag, 1500), planText(c.Plan), c.Forms[0].Files[0].Src)
+			}
+		}
+	}
+
 	for i := 1; i < len(c.Forms); i++ {
 		f := &c.Forms[i]
-		o := decodeForm(&c, f, spec, st)
+		o := decodeForm(&c, f, spec, st, env)
 		sig := stepsSig(f)
 		if o.twice != "" {
 			return core.V("decode-twice|"+sig, "decoding the same merged body a second time gives another result: %s", clipS(o.twice, 2000))
@@ -570,9 +599,20 @@ func checkA(c CaseA) *core.Violation {
 				return core.V("gohcl|value-differs|"+sig, "gohcl.DecodeBody of form %v differs from the reference at %s\n%s", f.Steps, where, show())
 			}
 		}
+		// decoder dimension: every two-stage consumer style agrees between the form
+		// and the reference (has-errors and result), and with the complete decode of
+		// the same body where both are free of errors
+		if ssig, msg := sameStyles(ref.styles, o.styles); ssig != "" {
+			return core.V(fmt.Sprintf("style|%s|%s|%s", ssig, sig, fault),
+				"consumer style %s: reference vs form %v: %s\nplan %s (hcldec spec cut %d levels down)\n%s", ssig, f.Steps, clipS(msg, 2500), planText(c.Plan), c.PDDepth, show())
+		}
+		if sname, msg := crossStyle(&o); sname != "" {
+			return core.V(fmt.Sprintf("style|%s|differs-from-complete-decode|%s", sname, sig),
+				"form %v: %s\nplan %s (hcldec spec cut %d levels down)\n%s", f.Steps, clipS(msg, 2500), planText(c.Plan), c.PDDepth, show())
+		}
 	}
 	if c.Layers != nil && c.Fault != "missing-label" {
-		return checkLayers(&c, spec, st)
+		return checkLayers(&c, spec, st, env)
 	}
 	return nil
 }
@@ -647,6 +687,20 @@ func classifyA(c CaseA) core.Class {
 		}
 	}
 	cl.Labels = append(cl.Labels, c.Stats...)
+	if c.Plan != nil {
+		pl := map[string]bool{}
+		planLabels(&c.Schema, c.Plan, 0, pl)
+		for k := range pl {
+			cl.Labels = append(cl.Labels, k)
+		}
+		// (the histogram keeps the 60 most frequent labels: one label per alternative)
+		if c.PDDepth > 0 {
+			cl.Labels = append(cl.Labels, "style:hcldec-spec-cut-below-top-level")
+		}
+		if c.GoLater {
+			cl.Labels = append(cl.Labels, "style:gohcl-remain-body-decoded-later")
+		}
+	}
 	fault := c.Fault
 	if fault == "" {
 		fault = "valid"
@@ -767,7 +821,7 @@ func classifyA(c CaseA) core.Class {
 func TestC19a(t *testing.T) {
 	core.Run(t, core.Spec[CaseA]{
 		Property: "C19", Sub: "a",
-		Rule: "generated hcldec spec / gohcl struct type (attributes: string number bool list set map object tuple any; blocks: single list set tuple with 0-8 labels (BlockLabelSpec / label fields), map and object-map with 1-8 LabelNames, attrs; labels and map keys drawn from representation classes (starting with // # /*, equal to //, with quotes, backslashes, newlines, tabs, ${ %{, dots, brackets, spaces, separators, empty, long, non-ASCII, JSON words, schema names, numeric, case variants); up to 4 sibling blocks that often share a label prefix (typically all but the last label); nesting<=3) + conforming or single-fault instance, rendered as plain native text (reference) and 2-5 forms composing: JSON syntax (own emitter from json/spec.md), shuffled items, comments/odd whitespace/CRLF, hclwrite.Format, split into 2-9 files merged with hcl.MergeFiles or with nested / incremental hcl.MergeBodies (left- and right-nested, merge of merges, base grown one body at a time; attributes in exactly one file, per-type block order kept; some bodies decoded twice), layered configurations (one base of 1-9 files and 2-3 independent overlays merged onto the same base body, all merged bodies built before any is decoded, or decoded right after building as control, each compared with its own single-file text), runs of blocks folded into dynamic blocks (tuple/object/variable for_each, labels, custom iterator, nested, inherited iterator) expanded with dynblock.Expand. Oracle: every form agrees with the reference on has-errors and on the decoded value for hcldec.Decode and gohcl.DecodeBody, and the reference of a conforming instance decodes to the instance. Non-trivial: >=1 repeated or labelled block and a form composing >=2 rewrites; distinct = (valid/faulty, nesting>=2, widest rewrite combination of the case)",
+		Rule: "generated hcldec spec / gohcl struct type (attributes: string number bool list set map object tuple any; blocks: single list set tuple with 0-8 labels (BlockLabelSpec / label fields), map and object-map with 1-8 LabelNames, attrs; labels and map keys drawn from representation classes (starting with // # /*, equal to //, with quotes, backslashes, newlines, tabs, ${ %{, dots, brackets, spaces, separators, empty, long, non-ASCII, JSON words, schema names, numeric, case variants); up to 4 sibling blocks that often share a label prefix (typically all but the last label); nesting<=3) + conforming or single-fault instance, rendered as plain native text (reference) and 2-5 forms composing: JSON syntax (own emitter from json/spec.md), shuffled items, comments/odd whitespace/CRLF, hclwrite.Format, split into 2-9 files merged with hcl.MergeFiles or with nested / incremental hcl.MergeBodies (left- and right-nested, merge of merges, base grown one body at a time; attributes in exactly one file, per-type block order kept; some bodies decoded twice), layered configurations (one base of 1-9 files and 2-3 independent overlays merged onto the same base body, all merged bodies built before any is decoded, or decoded right after building as control, each compared with its own single-file text), runs of blocks folded into dynamic blocks (tuple/object/variable for_each, labels, custom iterator, nested, inherited iterator) expanded with dynblock.Expand. Oracle: every form agrees with the reference on has-errors and on the decoded value for hcldec.Decode and gohcl.DecodeBody, and the reference of a conforming instance decodes to the instance. Non-trivial: >=1 repeated or labelled block and a form composing >=2 rewrites; distinct = (valid/faulty, nesting>=2, widest rewrite combination of the case). DECODER DIMENSION (styles_test.go): every form, the reference included, is additionally read through two-stage consumer styles driven by a generated plan (cfggen.SplitP: for every body of the schema, recursively, which attribute names / block types are asked for first; the rest comes from the remaining body): (pd) hcldec.PartialDecode with the first half of the object spec + hcldec.Decode of the remainder with the second half, at the top level or on the bodies of the blocks 1-2 levels down; (walk) a generic walker that at EVERY block level calls body.PartialContent(subset) and then remain.Content(rest) - or remain.PartialContent(rest) followed by an empty Content call on what is left, or remain.JustAttributes for attribute-only bodies of forms not wrapped in dynblock.Expand - and evaluates the attribute expressions of both stages; (remain) gohcl.DecodeBody into reflect.StructOf types whose second half sits in a struct field tagged yaotl:\",remain\"; (later) the same with an hcl.Body remain field decoded by a second DecodeBody call. Oracle clauses: each style agrees between reference and form on has-errors and on its result; a conforming instance is accepted by every style; where free of errors a style's result equals the complete decode of the same body (joined halves == hcldec.Decode, two-stage walk == one-stage walk, remain structs joined == plain gohcl struct). Class label partial-decode-inside-generated-block-with-iterator-reference-in-remainder: a form whose dynamic rewrite puts an iterator reference (attribute, nested dynamic, static child holding one) of a GENERATED block into the plan's remainder",
 		Gen:  genA, Check: checkA, Classify: classifyA,
 		Assumptions: []string{
 			"go-cty (conversion, number parsing, set ordering) is the trusted base of the expected values",
